@@ -4,6 +4,7 @@ import OpusProofs.LayoutMs
 import OpusProofs.MatrixDemix
 import OpusProofs.MsEncode
 import OpusProofs.ProjectionImport
+import OpusProofs.ProjectionCreate
 import OpusProofs.LayoutIsqrt
 /-
   Property C10 — "Multistream and projection equal per-stream coding plus the channel mapping".
@@ -264,6 +265,38 @@ theorem import_export_demix :
         pd.layout = ⟨ch, (ch + 1) / 2, ch / 2, List.range ch⟩ ∧
         productCols pd.matrix mx ch ch = product o ch) :=
   ⟨Projection.importCell_exportCell, Projection.import_export⟩
+
+/-- **Projection decoder creation rejects exactly the documented argument classes** (the code as repaired by
+    `fix:` commit 31272f65).  `opus_projection_decoder_init` succeeds iff `1 ≤ channels ≤ 255`,
+    `1 ≤ streams`, `0 ≤ coupled ≤ streams`, `streams + coupled ≤ 255`, the announced size is
+    `2·(streams+coupled)·channels ≤ 65004` (and the buffer holds that many bytes), there are at least
+    `channels` coded channels (identity mapping valid) and the rate is supported; it then stores the parsed
+    cells as a `channels × (streams+coupled)` matrix with gain 0 and the identity layout.  Every refusal is
+    `OPUS_BAD_ARG` (`create`: or `OPUS_ALLOC_FAIL`), it never aborts — in particular the scratch array
+    always has a positive length — and reads past the matrix only if the caller's buffer is shorter than
+    the size it announced.  `create` succeeds exactly when `init` does, with the same state. -/
+theorem projdec_create_rejects (innerOk : Bool) (ch st co : Int) (dm : Bytes) (size : Int) :
+    (Projection.decoderInit innerOk ch st co dm size ≠ .abort ∧
+     (Projection.decoderInit innerOk ch st co dm size = .oob →
+       DecArgsOk ch st co ∧ (st + co) * ch * 2 = size ∧ (dm.length : Int) < size) ∧
+     (∀ e, Projection.decoderInit innerOk ch st co dm size = .err e → e = .badArg) ∧
+     (∀ pd, Projection.decoderInit innerOk ch st co dm size = .ok pd ↔
+       DecArgsOk ch st co ∧ (st + co) * ch * 2 = size ∧ size ≤ dm.length ∧ size ≤ 65004 ∧ ch ≤ st + co ∧
+       innerOk = true ∧ ∃ cells, Projection.importCells dm ((st + co) * ch).toNat = .ok cells ∧
+         pd = { matrix := { rows := ch.toNat, cols := (st + co).toNat, gain := 0, data := cells },
+                layout := storedLayout ch st co (List.range ch.toNat) })) ∧
+    (Projection.decoderCreate innerOk ch st co dm size ≠ .abort ∧
+     (∀ e, Projection.decoderCreate innerOk ch st co dm size = .err e → e = .badArg ∨ e = .allocFail) ∧
+     (∀ pd, Projection.decoderInit innerOk ch st co dm size = .ok pd →
+       Projection.decoderCreate innerOk ch st co dm size = .ok pd) ∧
+     (∀ pd, Projection.decoderCreate innerOk ch st co dm size = .ok pd →
+       Projection.decoderInit innerOk ch st co dm size = .ok pd)) :=
+  ⟨Projection.decoderInit_outcomes innerOk ch st co dm size, Projection.decoderCreate_outcomes innerOk ch st co dm size⟩
+
+/-- zero channels / zero coded channels with a matching size of 0 — the inputs that used to reach a
+    zero-length scratch array — are now plain `OPUS_BAD_ARG` -/
+example : Projection.decoderInit true 0 1 0 [] 0 = .err .badArg ∧ Projection.decoderInit true 1 1 (-1) [] 0 = .err .badArg ∧
+    Projection.decoderCreate true 1 1 0 [0, 64] 2 = .ok ⟨⟨1, 1, 0, [16384]⟩, ⟨1, 1, 0, [0]⟩⟩ := by decide
 
 example : Projection.exportCell (-23170) = (0x7E, 0xA5) ∧ Projection.importCell 0x7E 0xA5 = -23170 ∧
     Projection.decoderCreate true 4 2 2 [0, 64] 32 = .oob ∧
